@@ -103,3 +103,25 @@ Print Assumptions C11_expand_total_call_by_name_partial.
 
 Example C11_expand_premises : nonrec tb_ex rank_ex /\ okt tb_ex rank_ex 2 use_ex.
 Proof. exact (conj nonrec_ex okt_ex). Qed.
+
+(* stringizing (6.10.3.2p2) *)
+From CV Require Import PP.Stringize PP.StringizeProofs.
+(* the standard's # yields a well-formed string literal that denotes the spelling of the argument *)
+Theorem C11_stringize_c_denotes ts : plain_ok ts -> unquote (stringize_c ts) = Some (spelling true ts).
+Proof. exact (stringize_c_denotes ts). Qed.
+Print Assumptions C11_stringize_c_denotes.
+(* simplecpp's expandHash/escapeString (escape \ dquote and apostrophe in the whole text) also always yields a
+   well-formed literal denoting the text it assembled ... *)
+Theorem C11_stringize_s_denotes text : unquote (stringize_s text) = Some text.
+Proof. exact (stringize_s_denotes text). Qed.
+Print Assumptions C11_stringize_s_denotes.
+Theorem C11_stringize_same_denotation ts :
+  plain_ok ts -> unquote (stringize_s (spelling true ts)) = unquote (stringize_c ts).
+Proof. exact (stringize_same_denotation ts). Qed.
+Print Assumptions C11_stringize_same_denotation.
+(* ... but not the standard's spelling *)
+Theorem C11_stringize_spelling_refuted : stringize_s [39; 97; 39]%N <> stringize_c [(false, [39; 97; 39]%N)].
+Proof. exact stringize_spelling_differs. Qed.
+Print Assumptions C11_stringize_spelling_refuted.
+Example C11_plain_ok_example : plain_ok [(false, [76; 34; 97; 34]%N); (true, [120]%N)].
+Proof. intros ws t [H|[H|[]]] L; inversion H; subst; [discriminate L|split; reflexivity]. Qed.
